@@ -162,6 +162,9 @@ impl HttpSignatureHelper for http::Signature {
         if self.version == Version::Any {
             keys.push(HttpIndexKey { http_version_key: Version::V10 });
             keys.push(HttpIndexKey { http_version_key: Version::V11 });
+            // a version wildcard also accepts HTTP/2 and HTTP/3 observations
+            keys.push(HttpIndexKey { http_version_key: Version::V20 });
+            keys.push(HttpIndexKey { http_version_key: Version::V30 });
         } else {
             keys.push(HttpIndexKey { http_version_key: self.version });
         }
